@@ -22,6 +22,21 @@
             WSGI client), "httpbuf" (same with max_response_bytes set, so that one HTTP response carries
             several producer steps and a later step's error rides behind data in one body)
 
+   Beyond this base product every case carries three more coordinates, varied one at a time over a reduced
+   class / message set (VClasses x VMsgClasses x every shape and site):
+     mode   how the client consumes a producer stream: "iter" (tick loop on sockets, __iter__ / exchange over
+            HTTP -- the default), "foriter" (socket: for-loop over the session), "token" (HTTP:
+            next_with_token(), the resumable-relay entry point with its own response reader)
+     chain  "none" | "cause" (raise X from Y, Y with a 20 kB text) | "context" (raised inside an except block)
+     depth  "shallow" | "deep" (raised 300 frames down: the traceback alone exceeds its 16 000-char cap)
+   further message classes (XMsgClasses): "multiarg" (C(text, 42): str() is the tuple repr), "nonstr" (C(12345)),
+   "surrogate" (the text holds a lone surrogate, as surrogateescape-decoded file names do: it cannot be encoded
+   as UTF-8 verbatim; carried = every surrogate-free segment of the text arrives, in order)
+   and further transports / deployments (XTransports): "unix", "tcp" (socket pairs), "shm" (pipe with the shared
+   memory side channel), "pipehook" / "httphook" (a dispatch hook -- the otel / sentry extension point -- whose
+   start and end callbacks raise), "httpsticky" (sticky-session middleware enabled), "httpplain" (no compression).
+   The statement is universal, so every coordinate has the same expected outcome.
+
    Normative sources: the property statement; docs/WIRE_PROTOCOL.md section 8 ("The client MUST raise/throw
    an error with the following fields extracted from the metadata: error_type, error_message,
    remote_traceback, request_id, error_kind: `vgi_rpc.error_kind` value, when present") and its table of
@@ -29,7 +44,9 @@
 EXTENDS Naturals, Sequences, FiniteSets
 
 CONSTANTS Builtins, UserClasses, TypedClasses, MsgClasses, Transports,
-          StreamSites     \* subset of AllStreamSites explored in this run
+          StreamSites,    \* subset of AllStreamSites explored in this run
+          VClasses, VMsgClasses,         \* reduced class / message sets for the one-at-a-time variations
+          XMsgClasses, XTransports, Chains, Depths, Modes     \* the variations explored in this run (may be empty)
 
 \* ------------------------------------------------------------------ normative kind table (WIRE_PROTOCOL section 8)
 WellKnownKinds == {"method_not_implemented", "protocol_version_mismatch", "session_lost", "server_draining"}
@@ -49,12 +66,29 @@ AllStreamSites == {"init", "init_log", "p1", "p1_log", "p1_emit", "p2", "p2_log"
 ASSUME StreamSites \subseteq AllStreamSites
 SitesOf(shape) == IF shape = "unary" THEN {"call", "call_log"} ELSE StreamSites
 AllClasses == Builtins \cup UserClasses \cup TypedClasses
-IsHttp(tr) == tr \in {"http", "httpbuf"}
+HttpTransports == {"http", "httpbuf", "httpsticky", "httpplain", "httphook"}
+SockTransports == {"pipe", "unix", "tcp", "shm", "pipehook"}
+IsHttp(tr) == tr \in HttpTransports
+ProdShapes == {"prod", "prodh"}
+Dflt == [mode |-> "iter", chain |-> "none", depth |-> "shallow"]
+Mk(c, m, s, st, t, md, ch, dp) == [cls |-> c, msg |-> m, shape |-> s, site |-> st, tr |-> t, mode |-> md, chain |-> ch, depth |-> dp]
+Grid(cs, ms, ts) == {x \in {Mk(c, m, s, st, t, "iter", "none", "shallow") :
+                                c \in cs, m \in ms, s \in Shapes, st \in StreamSites \cup {"call", "call_log"}, t \in ts}
+                        : x.site \in SitesOf(x.shape)}
+Control(ts) == {Mk("none", "none", s, "none", t, "iter", "none", "shallow") : s \in Shapes, t \in ts}
 
-Failing == {[cls |-> c, msg |-> m, shape |-> s, site |-> st, tr |-> t] :
-              c \in AllClasses, m \in MsgClasses, s \in Shapes, st \in StreamSites \cup {"call", "call_log"}, t \in Transports}
-Cases == {x \in Failing : x.site \in SitesOf(x.shape)}
-         \cup {[cls |-> "none", msg |-> "none", shape |-> s, site |-> "none", tr |-> t] : s \in Shapes, t \in Transports}
+Base == Grid(AllClasses, MsgClasses, Transports) \cup Control(Transports)
+\* one-at-a-time variations over the reduced grid
+VGrid(ts) == Grid(VClasses, VMsgClasses, ts)
+ModeOK(x, md) == x.shape \in ProdShapes /\ (IF md = "token" THEN IsHttp(x.tr) ELSE ~IsHttp(x.tr))
+Variants ==
+       VGrid(XTransports) \cup Control(XTransports)
+  \cup Grid(VClasses, XMsgClasses, Transports)
+  \cup {[x EXCEPT !.chain = ch] : x \in VGrid(Transports), ch \in Chains \ {"none"}}
+  \cup {[x EXCEPT !.depth = dp] : x \in VGrid(Transports), dp \in Depths \ {"shallow"}}
+  \cup UNION {{[x EXCEPT !.mode = md] : x \in {y \in VGrid(Transports) \cup Control(Transports) : ModeOK(y, md)}}
+              : md \in Modes \ {"iter"}}
+Cases == Base \cup Variants
 
 Fails(c) == c.cls # "none"
 \* the step of the stream at which the call fails (0 = the method call itself / init)
@@ -68,6 +102,13 @@ Expected(c) == [fails |-> Fails(c), etype |-> c.cls, kind |-> Kind(c.cls), group
 TypedHaveKind(c)   == c.cls \in TypedClasses => Kind(c.cls) \in WellKnownKinds
 UntypedNoKind(c)   == c.cls \notin TypedClasses => Kind(c.cls) = ""
 SiteValid(c)       == IF Fails(c) THEN c.site \in SitesOf(c.shape) ELSE c.site = "none"
+CoordsValid(c)     == /\ c.tr \in HttpTransports \cup SockTransports
+                      /\ c.mode \in {"iter", "foriter", "token"} /\ c.chain \in {"none", "cause", "context"}
+                      /\ c.depth \in {"shallow", "deep"}
+                      /\ (c.mode = "token" => (IsHttp(c.tr) /\ c.shape \in ProdShapes))
+                      /\ (c.mode = "foriter" => (~IsHttp(c.tr) /\ c.shape \in ProdShapes))
+\* a variation changes exactly one coordinate of a grid point
+OneAtATime(c)      == Cardinality({k \in {"mode", "chain", "depth"} : c[k] # Dflt[k]}) <= 1
 GroupsDisjoint(c)  == Cardinality({g \in {Builtins, UserClasses, TypedClasses} : c.cls \in g}) = (IF Fails(c) THEN 1 ELSE 0)
 KindInjective(c)   == \A a, b \in FrameworkTyped : (a # b) => Kind(a) # Kind(b)
 FrameworkCovered(c) == FrameworkTyped \subseteq TypedClasses      \* every run covers all four framework typed errors
@@ -79,7 +120,8 @@ FrameworkCovered(c) == FrameworkTyped \subseteq TypedClasses      \* every run c
      hung     the call did not come back within the watchdog
      etype    RpcError.error_type of the (first) error ("" if none)
      srvtype  the class name the implementation recorded when it raised ("" if it did not raise)
-     msg_ok   str(exc) recorded by the implementation is contained in RpcError.error_message
+     msg_ok   str(exc) recorded by the implementation is contained in RpcError.error_message (message class
+              "surrogate": every surrogate-free segment of it is, in order)
      kind     the error kind exposed on the client error: the value of RpcError.error_kind, "" when it is
               None / empty, "<noattr>" when the client error has no such attribute
      done     (successful rows) the scripted use ran to its normal end
